@@ -217,7 +217,7 @@ def held_bytes(client) -> int:
 def segmentations(n: int, rng: random.Random, tier: str):
     """list of cut-point lists for a stream of n bytes"""
     segs = [[], list(range(1, n))]                       # all at once, one byte at a time
-    step = 1 if tier == "thorough" else 3
+    step = 1 if tier == "thorough" else max(3, n // 70)      # quick: at most ~70 single cuts, spread over the stream
     segs += [[c] for c in range(1, n, step)]             # every single cut
     for _ in range({"quick": 12, "thorough": 80, "selftest": 3}[tier]):
         k = rng.randint(2, 8)
